@@ -109,7 +109,7 @@ func l0(ctx *Ctx, r *Result, rule string, t *ValidatorTable) bool {
 	for _, pa := range t.Exit {
 		guard := false
 		for _, a := range pa.Atoms[pa.PreAt:] {
-			if strings.HasPrefix(t.tag(a.T), "bin:<(bin:+(carried:rangeindex,1),len:builtin.len(param:"+t.List+"))") && !a.Pos {
+			if t.isGuardTag(t.tag(a.T)) && !a.Pos {
 				guard = true
 			}
 		}
@@ -134,7 +134,7 @@ func (t *ValidatorTable) exitDesc(pa *Path) string {
 	var s []string
 	for _, a := range pa.Atoms[pa.PreAt:] {
 		g := t.tag(a.T)
-		if strings.HasPrefix(g, "bin:<(bin:+(carried:rangeindex") {
+		if t.isGuardTag(g) {
 			continue
 		}
 		if !a.Pos {
@@ -897,43 +897,42 @@ func patternPredicates(ctx *Ctx, r *Result, rule string) bool {
 		r.undecided(rule, "IsDeemedInsecure", fmt.Sprint(err, err2, x.Problems))
 		return false
 	}
-	// conjunction of: scheme != "https", kind != loopback, hostOnly != "localhost"
+	// conjunction of: scheme != "https", kind != loopback, hostOnly != "localhost";
+	// decided on the truth table of the result (a returned comparison counts
+	// as a branch on it), so the way the expression is written does not matter
 	aScheme := `bin:==(param:p.Scheme, "https")`
 	aKind := fmt.Sprintf("bin:==(param:p.HostPattern.Kind, %d)", loop)
 	good := true
 	detail := ""
 	nTrue := 0
-	for _, pa := range paths {
+	for _, pa := range ExpandBoolRet(paths, 0) {
 		if len(pa.Rets) != 1 {
 			good = false
 			continue
 		}
 		ret := pa.Rets[0]
-		secure := pa.Has(aScheme, true) || pa.Has(aKind, true)
+		hostEq := pa.Val(`bin:==(param:p.HostPattern.Value, "localhost")`)
+		if pa.Val(fmt.Sprintf("bin:==(param:p.HostPattern.Kind, %d)", subs)) == 1 {
+			hostEq = pa.Val(`bin:==(slice(param:p.HostPattern.Value, 2, _, _), "localhost")`)
+		}
 		switch {
 		case ret.IsConst("false"):
-			if !secure {
-				good, detail = false, "deemed secure without https scheme or loopback kind: "+pa.AtomString()
+			if !(pa.Has(aScheme, true) || pa.Has(aKind, true) || hostEq == 1) {
+				good, detail = false, "deemed secure without https scheme, loopback kind or the host localhost (wildcard-free): "+pa.AtomString()
 			}
 		case ret.IsConst("true"):
-			good, detail = false, "unconditionally insecure path: "+pa.AtomString()
-		default:
-			// final conjunct: hostOnly() != "localhost"
 			nTrue++
 			if !pa.Has(aScheme, false) || !pa.Has(aKind, false) {
-				good, detail = false, "host comparison reached without excluding https and loopback: "+pa.AtomString()
+				good, detail = false, "deemed insecure without excluding https and loopback: "+pa.AtomString()
+			} else if hostEq != -1 {
+				good, detail = false, "deemed insecure without `host != \"localhost\"` on the wildcard-free host: "+pa.AtomString()
 			}
-			k := ret.Key()
-			isSubs := pa.Val(fmt.Sprintf("bin:==(param:p.HostPattern.Kind, %d)", subs))
-			wantPlain := `bin:!=(param:p.HostPattern.Value, "localhost")`
-			wantSubs := `bin:!=(slice(param:p.HostPattern.Value, 2, _, _), "localhost")`
-			if !(isSubs != 1 && k == wantPlain) && !(isSubs == 1 && k == wantSubs) {
-				good, detail = false, "last conjunct is not `host != \"localhost\"` on the wildcard-free host: "+k
-			}
+		default:
+			good, detail = false, "result is not a boolean combination of comparisons: "+ret.Key()
 		}
 	}
 	if nTrue == 0 {
-		good, detail = false, "no path compares the host with localhost"
+		good, detail = false, "no path deems a pattern insecure"
 	}
 	ok = r.check(good, rule, "IsDeemedInsecure: scheme≠https ∧ kind≠loopback ∧ host≠localhost", ctx.P.Pos(fn.Pos()), detail, len(paths)) && ok
 
@@ -1085,7 +1084,7 @@ func (t *ValidatorTable) iterDesc(ip *IterPath) string {
 	var s []string
 	for _, a := range ip.Atoms {
 		g := t.tag(a.T)
-		if strings.HasPrefix(g, "bin:<(bin:+(carried:rangeindex") || strings.HasPrefix(g, "bin:==(len:builtin.len(param:") {
+		if t.isGuardTag(g) || strings.HasPrefix(g, "bin:==(len:builtin.len(param:") {
 			continue
 		}
 		if !a.Pos {
